@@ -108,6 +108,7 @@ type rewriter struct {
 	ioName   string
 	ctxName  string
 	syncSpec *ast.ImportSpec
+	ntmp     int
 }
 
 func instrumentPackage(ov *Overlay, repo, pkg string, exports map[string]string, opt Options) error {
@@ -224,6 +225,17 @@ func (rw *rewriter) isDoneChan(e ast.Expr) bool {
 	}
 	st, ok := c.Elem().Underlying().(*types.Struct)
 	return ok && st.NumFields() == 0
+}
+
+// tmp returns a fresh identifier for a hoisted temporary (unique per file).
+func (rw *rewriter) tmp(prefix string) *ast.Ident {
+	rw.ntmp++
+	return ast.NewIdent(fmt.Sprintf("%s%d", prefix, rw.ntmp))
+}
+
+func (rw *rewriter) isAnyBuiltin(id *ast.Ident) bool {
+	_, ok := rw.info.Uses[id].(*types.Builtin)
+	return ok
 }
 
 func (rw *rewriter) isBuiltin(id *ast.Ident, name string) bool {
@@ -560,7 +572,7 @@ func (rw *rewriter) stmt(s ast.Stmt) (pre []ast.Stmt, out ast.Stmt) {
 		_, v.Assign = rw.stmt(v.Assign)
 		rw.clauses(v.Body)
 	case *ast.SelectStmt:
-		return nil, rw.selectStmt(v)
+		return rw.selectStmt(v)
 	case *ast.DeclStmt:
 		if gd, ok := v.Decl.(*ast.GenDecl); ok {
 			for _, sp := range gd.Specs {
@@ -610,26 +622,60 @@ func (rw *rewriter) splitRMW(id *ast.Ident, inc bool) ([]ast.Stmt, ast.Stmt) {
 			&ast.BinaryExpr{X: tmp, Op: op, Y: &ast.BasicLit{Kind: token.INT, Value: "1"}}}}
 }
 
+// goStmt: `go f(a, b)` becomes
+//
+//	{ vsched_gof, vsched_goa0, vsched_goa1 := f, a, b; vsched.Go0(func() { vsched_gof(vsched_goa0, vsched_goa1) }) }
+//
+// so that function value and arguments are evaluated by the parent at the go
+// statement (as the language says) whatever their number and types are
+// (interface conversions at the call, results dropped, variadic spread kept).
+// Constants, nil and other untyped operands stay in the call: a temporary
+// would give them their default type.
 func (rw *rewriter) goStmt(g *ast.GoStmt) ast.Stmt {
 	call := g.Call
+	if id, ok := call.Fun.(*ast.Ident); ok && rw.isAnyBuiltin(id) {
+		// go close(ch), go panic(x), ...: run the rewritten call in a goroutine
+		inner := rw.expr(call)
+		rw.used = true
+		return &ast.ExprStmt{X: rw.call("Go0", &ast.FuncLit{Type: &ast.FuncType{Params: &ast.FieldList{}},
+			Body: &ast.BlockStmt{List: []ast.Stmt{&ast.ExprStmt{X: inner}}}})}
+	}
+	sig, _ := rw.typeOf(call.Fun).(*types.Signature)
+	if len(call.Args) == 0 && sig != nil && sig.Results().Len() == 0 {
+		return &ast.ExprStmt{X: rw.call("Go0", rw.expr(call.Fun))}
+	}
+	fID := ast.NewIdent("vsched_gof")
+	lhs := []ast.Expr{fID}
+	rhs := []ast.Expr{rw.expr(call.Fun)}
+	var args []ast.Expr
+	for i, a := range call.Args {
+		tv, known := rw.info.Types[a]
+		inline := !known || tv.Value != nil || tv.IsNil()
+		if b, ok := tv.Type.(*types.Basic); known && ok && b.Info()&types.IsUntyped != 0 {
+			inline = true
+		}
+		if _, ok := tv.Type.(*types.Tuple); known && ok {
+			rw.errorf(g, "go statement with a multi-valued argument is not supported")
+			return g
+		}
+		if inline {
+			args = append(args, rw.expr(a))
+			continue
+		}
+		tmp := ast.NewIdent(fmt.Sprintf("vsched_goa%d", i))
+		lhs = append(lhs, tmp)
+		rhs = append(rhs, rw.expr(a))
+		args = append(args, ast.NewIdent(tmp.Name))
+	}
+	inner := &ast.CallExpr{Fun: ast.NewIdent(fID.Name), Args: args}
 	if call.Ellipsis.IsValid() {
-		rw.errorf(g, "go statement with variadic spread is not supported")
-		return g
+		inner.Ellipsis = 1
 	}
-	if len(call.Args) > 9 {
-		rw.errorf(g, "go statement with more than 9 arguments is not supported")
-		return g
-	}
-	if sig, ok := rw.typeOf(call.Fun).(*types.Signature); ok && sig.Results().Len() > 0 {
-		rw.errorf(g, "go statement on a function with results is not supported")
-		return g
-	}
-	fun := rw.expr(call.Fun)
-	args := []ast.Expr{fun}
-	for _, a := range call.Args {
-		args = append(args, rw.expr(a))
-	}
-	return &ast.ExprStmt{X: rw.call(fmt.Sprintf("Go%d", len(call.Args)), args...)}
+	return &ast.BlockStmt{List: []ast.Stmt{
+		&ast.AssignStmt{Lhs: lhs, Tok: token.DEFINE, Rhs: rhs},
+		&ast.ExprStmt{X: rw.call("Go0", &ast.FuncLit{Type: &ast.FuncType{Params: &ast.FieldList{}},
+			Body: &ast.BlockStmt{List: []ast.Stmt{&ast.ExprStmt{X: inner}}}})},
+	}}
 }
 
 func (rw *rewriter) rangeStmt(r *ast.RangeStmt) ([]ast.Stmt, ast.Stmt) {
@@ -641,9 +687,12 @@ func (rw *rewriter) rangeStmt(r *ast.RangeStmt) ([]ast.Stmt, ast.Stmt) {
 	}
 	switch u := t.Underlying().(type) {
 	case *types.Chan:
+		var pre []ast.Stmt
 		if !pure(r.X) {
-			rw.errorf(r, "range over a non-trivial channel expression is not supported")
-			return nil, r
+			// the channel expression is evaluated once, before the loop
+			tmp := rw.tmp("vsched_rangech")
+			pre = []ast.Stmt{&ast.AssignStmt{Lhs: []ast.Expr{tmp}, Tok: token.DEFINE, Rhs: []ast.Expr{rw.expr(r.X)}}}
+			r.X = ast.NewIdent(tmp.Name)
 		}
 		rw.block(r.Body)
 		okID := ast.NewIdent("vsched_ok")
@@ -662,7 +711,7 @@ func (rw *rewriter) rangeStmt(r *ast.RangeStmt) ([]ast.Stmt, ast.Stmt) {
 		// insert the break right after the receive
 		body := append([]ast.Stmt{head[0], brk}, head[1:]...)
 		body = append(body, r.Body.List...)
-		return nil, &ast.ForStmt{Body: &ast.BlockStmt{List: body}}
+		return pre, &ast.ForStmt{Body: &ast.BlockStmt{List: body}}
 	case *types.Map:
 		rw.block(r.Body)
 		if rw.opt.NoMapOrder || !orderedKey(u.Key()) || !pure(r.X) || r.Key == nil || r.Tok != token.DEFINE {
@@ -712,7 +761,7 @@ func orderedKey(t types.Type) bool {
 	return b.Info()&(types.IsInteger|types.IsFloat|types.IsString) != 0
 }
 
-func (rw *rewriter) selectStmt(s *ast.SelectStmt) ast.Stmt {
+func (rw *rewriter) selectStmt(s *ast.SelectStmt) (pre []ast.Stmt, out ast.Stmt) {
 	selID := ast.NewIdent("vsched_sel")
 	hasDefault := false
 	var cases []ast.Expr
@@ -735,18 +784,24 @@ func (rw *rewriter) selectStmt(s *ast.SelectStmt) ast.Stmt {
 			u, ok := comm.X.(*ast.UnaryExpr)
 			if !ok || u.Op != token.ARROW {
 				rw.errorf(cc, "unsupported select case")
-				return s
+				return nil, s
 			}
 			cases = append(cases, rw.caseRecv(u.X))
 		case *ast.AssignStmt:
 			u, ok := comm.Rhs[0].(*ast.UnaryExpr)
 			if !ok || u.Op != token.ARROW {
 				rw.errorf(cc, "unsupported select case")
-				return s
+				return nil, s
 			}
 			if !pure(u.X) {
-				rw.errorf(cc, "select receive from a non-trivial channel expression with assignment is not supported")
-				return s
+				// the channel is named twice below (case + typed value): evaluate it once, before the select
+				tmp := rw.tmp("vsched_selch")
+				typ := rw.typeOf(u.X)
+				pre = append(pre, &ast.AssignStmt{Lhs: []ast.Expr{tmp}, Tok: token.DEFINE, Rhs: []ast.Expr{rw.expr(u.X)}})
+				u.X = ast.NewIdent(tmp.Name)
+				if typ != nil {
+					rw.info.Types[u.X] = types.TypeAndValue{Type: typ}
+				}
 			}
 			cases = append(cases, rw.caseRecv(u.X))
 			fn := "RecvVal"
@@ -769,7 +824,7 @@ func (rw *rewriter) selectStmt(s *ast.SelectStmt) ast.Stmt {
 			Fun: ast.NewIdent("panic"), Args: []ast.Expr{&ast.BasicLit{Kind: token.STRING, Value: strconv.Quote("vsched: select resolved to no case")}}}}}})
 	}
 	args := append([]ast.Expr{hd}, cases...)
-	return &ast.SwitchStmt{
+	return pre, &ast.SwitchStmt{
 		Init: &ast.AssignStmt{Lhs: []ast.Expr{selID}, Tok: token.DEFINE, Rhs: []ast.Expr{rw.call("Select", args...)}},
 		Tag:  &ast.SelectorExpr{X: selID, Sel: ast.NewIdent("Index")},
 		Body: &ast.BlockStmt{List: clauses},
@@ -858,9 +913,10 @@ func (rw *rewriter) expr(e ast.Expr) ast.Expr {
 			if rw.isBuiltin(id, "close") && len(v.Args) == 1 {
 				return rw.call("Close", rw.expr(v.Args[0]))
 			}
-			if (rw.isBuiltin(id, "len") || rw.isBuiltin(id, "cap")) && len(v.Args) == 1 {
+			if rw.isBuiltin(id, "len") && len(v.Args) == 1 {
+				// (cap needs nothing: the real channel has the capacity of the model)
 				if _, ok := rw.isChan(v.Args[0]); ok {
-					rw.errorf(v, "len/cap of a channel is not supported")
+					return rw.call("ChanLen", rw.expr(v.Args[0]))
 				}
 			}
 			if rw.isBuiltin(id, "make") && len(v.Args) >= 1 {
